@@ -64,6 +64,29 @@ namespace verif
                + optr(R, l, l.last_dealloc_prev_) + " ld=" + optr(R, l, l.last_dealloc_);
     }
 
+    // the deallocation cursor of an ordered list must be a pair of neighbours of *this* list (proxies included)
+    inline bool cursor_ok(fmd::ordered_free_memory_list& l)
+    {
+        char*       prev = l.begin_node();
+        char*       cur = fmd::xor_list_get_other(prev, nullptr);
+        std::size_t guard = 0;
+        while (cur && guard < 2000000)
+        {
+            if (prev == l.last_dealloc_prev_ && cur == l.last_dealloc_)
+                return true;
+            if (cur == l.end_node())
+                return false;
+            fmd::xor_list_iter_next(cur, prev);
+            ++guard;
+        }
+        return false;
+    }
+    template <class L>
+    inline bool cursor_ok(L&)
+    {
+        return true;
+    }
+
     inline std::string cptr(Region& R, fmd::small_free_memory_list& l, fmd::chunk_base* c)
     {
         if (c == &l.base_)
